@@ -30,11 +30,11 @@ NAMINGS = {
 ALLOPS = ("add", "update", "replace", "remove", "enable", "disable", "move", "reload")
 
 
-def tlc_histories(maxops, initfs, names=("N1", "N2"), simulate=None, seed=None, depth=None, ops=ALLOPS):
-    cfg = ("SPECIFICATION Spec\nCONSTANTS\n Names = {%s}\n Unknown = \"NX\"\n Defs = {\"D1\", \"D2\"}\n Descs = {\"\", \"d\"}\n"
+def tlc_histories(maxops, initfs, names=("N1", "N2"), simulate=None, seed=None, depth=None, ops=ALLOPS, defs_=("D1", "D2")):
+    cfg = ("SPECIFICATION Spec\nCONSTANTS\n Names = {%s}\n Unknown = \"NX\"\n Defs = {%s}\n Descs = {\"\", \"d\"}\n"
            " MaxOps = %d\n InitFs <- MCInitFs\n Ops = {%s}\n EnabledDevs = {}\n"
            "INVARIANT Emit\nINVARIANT UniqueNames\nINVARIANT StepProps\nCHECK_DEADLOCK FALSE\n"
-           % (", ".join('"%s"' % n for n in names), maxops, ", ".join('"%s"' % o for o in ops)))
+           % (", ".join('"%s"' % n for n in names), ", ".join('"%s"' % x for x in defs_), maxops, ", ".join('"%s"' % o for o in ops)))
     defs = "MCInitFs == %s\n" % tla_val([list(x) for x in initfs])
     out = []
     res = run_tlc("fset", "FiltersSet", defs, cfg, on_value=out.append, workers=8, simulate=simulate, seed=seed, depth=depth)
@@ -122,8 +122,10 @@ PLANS = {
     ("C12", "thorough"): [(3, [("N1", "D1"), ("N2", "D2")], ["plain", "nasty"]), (3, [], ["plain"]), (3, [("N1", "D2")], ["plain"]),
                           (5, [("N1", "D1"), ("N2", "D2")], ["plain"], STATUS), (4, [("N1", "D1")], ["plain"], EDIT)],
     ("C11", "quick"): [(2, [("N1", "D1"), ("N2", "D2")], ["plain", "nasty", "custom", "meta"]), (2, [], ["nasty"]),
-                       (3, [("N1", "D1"), ("N2", "D2")], ["nasty", "custom", "meta"], STATUS)],
-    ("C11", "thorough"): [(3, [("N1", "D1"), ("N2", "D2")], ["plain", "nasty", "custom", "meta"]), (3, [], ["nasty", "custom", "meta"])],
+                       (3, [("N1", "D1"), ("N2", "D2")], ["nasty", "custom", "meta"], STATUS),
+                       (2, [("N1", "D3"), ("N2", "D3")], ["plain", "custom"], ALLOPS, ("D3",))],
+    ("C11", "thorough"): [(3, [("N1", "D1"), ("N2", "D2")], ["plain", "nasty", "custom", "meta"]), (3, [], ["nasty", "custom", "meta"]),
+                          (3, [("N1", "D3"), ("N2", "D3")], ["plain", "custom", "meta"], ALLOPS, ("D3",))],
 }
 
 
@@ -134,7 +136,8 @@ def run(prop, tier, seed):
     tasks = []
     for plan in PLANS[(prop, tier)]:
         maxops, initfs, namings = plan[:3]
-        hs, res = tlc_histories(maxops, initfs, ops=plan[3] if len(plan) > 3 else ALLOPS)
+        hs, res = tlc_histories(maxops, initfs, ops=plan[3] if len(plan) > 3 else ALLOPS,
+                                defs_=plan[4] if len(plan) > 4 else ("D1", "D2"))
         if res["error"] or res["violated"]:
             machinery.append("TLC FiltersSet: %s %s" % (res["error"], res["violated"]))
         states += res["distinct"]
